@@ -13,9 +13,9 @@ def _scoped(fn, **kw):
 
 PROPS = {
     "C01": [otl.f26_api_conform, otl.f3_schema_wf, otl.f2_conv_pair, tables.f1_fmt_pair, tables.f1_letters] + tables.C01_EXTRA + [safety.f18_fallback, determinism.lazy_independence],
-    "C02": [tables.f1_fmt_pair, tables.f1_letters, otl.f2_conv_pair, otl.f3_schema_wf, codecs.f5_points, codecs.f5_deltas] + tables.C02_EXTRA,
+    "C02": [tables.spec_layouts, tables.f1_fmt_pair, tables.f1_letters, otl.f2_conv_pair, otl.f3_schema_wf, codecs.f5_points, codecs.f5_deltas] + tables.C02_EXTRA,
     "C03": xmlvocab.ALL + [codecs.ttprogram_push, design.filename_rules, tables.glyf_component, codecs.tag_ident, codecs.f22_fixed_tools, otl.f2_conv_pair, tables.pair_exhaustive],
-    "C04": [container.f10_dep_order, container.container_constants, container.alignment, container.directory_and_checksums, container.f22_recalc_twins, container.checksum_twins, container.woff2_close_order, tables.woff_discriminator, consistency.unpack_order],
+    "C04": [tables.spec_layouts, container.f10_dep_order, container.container_constants, container.alignment, container.directory_and_checksums, container.f22_recalc_twins, container.checksum_twins, container.woff2_close_order, tables.woff_discriminator, consistency.unpack_order],
     "C06": otl.C06 + [consistency.numbered_twins],
     "C07": exhaust.ALL_C07 + [exhaust.c07_index_remap, exhaust.c07_closure_registry, consistency.key_fields, _scoped(fea.argswap_scope, scope=("subset/",), rule="F21"), _scoped(exhaust.f19_varidx, scope=("subset/",), rule="F19"), _scoped(determinism.f12_set_order, scope=("subset/",), rule="F12-subset")],
     "C08": exhaust.ALL_C08 + [exhaust.c08_distance_carry, consistency.key_fields, _scoped(fea.argswap_scope, scope=("varLib/instancer/",), rule="F21"), _scoped(exhaust.f19_varidx, scope=("varLib/instancer/",), rule="F19"), _scoped(determinism.f12_set_order, scope=("varLib/instancer/",), rule="F12-instancer")],
